@@ -4,6 +4,7 @@
 package c02
 
 import (
+	"math"
 	"fmt"
 	"os"
 	"path/filepath"
@@ -23,9 +24,30 @@ func sameLine(a, b string) bool {
 	if a == b {
 		return true
 	}
-	fa, ea := strconv.ParseFloat(a, 64)
-	fb, eb := strconv.ParseFloat(b, 64)
-	return ea == nil && eb == nil && fa == fb
+	fa, ea := strconv.ParseFloat(numText(a), 64)
+	fb, eb := strconv.ParseFloat(numText(b), 64)
+	if ea != nil || eb != nil {
+		return false
+	}
+	if fa == fb || (math.IsNaN(fa) && math.IsNaN(fb)) {
+		return true
+	}
+	// the native runtime prints 15 significant digits, the JS runtime the shortest text that
+	// round-trips: the same number when they agree to 15 digits
+	return strconv.FormatFloat(fa, 'g', 15, 64) == strconv.FormatFloat(fb, 'g', 15, 64) || math.Abs(fa-fb) <= 1e-14*math.Max(math.Abs(fa), math.Abs(fb))
+}
+
+// numText: the spellings of the non-finite values ("inf.0", "-nan.0", "Infinity") as ParseFloat
+// knows them; the sign of a NaN is not a value.
+func numText(s string) string {
+	t := strings.TrimSuffix(s, ".0")
+	switch strings.ToLower(strings.TrimLeft(t, "+-")) {
+	case "nan":
+		return "NaN"
+	case "inf", "infinity":
+		return strings.ReplaceAll(strings.ReplaceAll(t, "Infinity", "Inf"), "inf", "Inf")
+	}
+	return s
 }
 
 func agree(n, w prog.Obs) bool {
@@ -131,7 +153,7 @@ func Run(c *vl.Ctx) {
 // module must keep two modules apart whatever their paths and names have in common.
 
 func multiModule(c *vl.Ctx, r *prog.Runner, famCount map[string]int) {
-	for _, mp := range c01.MultiProjects() {
+	for _, mp := range append(c01.MultiProjects(), c01.FloatProjects()...) {
 		if f := os.Getenv("VERIF_FILTER"); f != "" && !strings.Contains("C02/project/"+mp.ID, f) {
 			continue
 		}
